@@ -54,7 +54,9 @@ NS_MEMO = ['p1|*:not(:checked)', 'p1|a, :disabled', ':is(:link, p2|b)', 'p1|p:no
 def plan(tier, seed):
     n = 96 if tier == 'quick' else 2400
     per = 80 if tier == 'quick' else 160
-    return [{'kind': 'suite'}] + [{'seed': seed * 424243 + i, 'n': per} for i in range(n)]
+    nf = 48 if tier == 'quick' else 640
+    return [{'kind': 'suite'}] + [{'seed': seed * 424243 + i, 'n': per} for i in range(n)] + \
+        [{'kind': 'fault', 'seed': seed * 99991 + i, 'n': 12 if tier == 'quick' else 40} for i in range(nf)]
 
 
 def suite_replay():
@@ -369,9 +371,193 @@ def gen_steps(rng, n_els, ns=False, edits=True):
     return steps
 
 
+class Injected(BaseException):
+    """A fault that is not an Exception subclass (what a signal handler or a tracing tool of the caller may raise)."""
+
+
+CANARIES = ['iframe *', 'iframe p, iframe input', ':is(iframe, form) :is(p, input, span, div)', 'html *', ':root', ':root > * > *', ':lang(en)', ':lang("")',
+            ':default', ':indeterminate', ':checked', ':dir(ltr)', ':dir(rtl)', '*|*', ':not(iframe *)', ':has(> iframe p)', 'body :not(:has(*))',
+            ':-soup-contains(t)', ':in-range, :out-of-range', ':enabled', ':link', ':empty', ':nth-child(odd of :not(iframe *))', 'form *', ':required']
+FAULTS = [KeyboardInterrupt, MemoryError, RecursionError, Injected, RuntimeError]
+BROKEN = [', :bogus(', ', p >', ', [a=', ', :nth-child(2n+)', ', :is(', ', p:lang()', ', ::', ', :--nope']
+
+
+def fault_op(sv, rng, op, sel, tgt, compiled, nsmap, at, exc, stats):
+    """One public call with a fault injected at the at-th line executed inside soupsieve (lazy iselect is consumed
+    step by step so that the fault may also land between two `next()` calls' worth of work).  Returns the failpoint."""
+    fp = monitors.Failpoint(at, exc)
+    with monitors.cpu_budget(30.0):
+        try:
+            with fp:
+                if op == 'iselect':
+                    it = (sv.compile(sel, nsmap) if compiled else None)
+                    it = it.iselect(tgt) if compiled else sv.iselect(sel, tgt, nsmap)
+                    k = rng.choice([0, 1, 2, 10 ** 6])
+                    for _i, _e in enumerate(it):
+                        if _i >= k:
+                            break
+                    if rng.random() < .5:
+                        it.close()
+                else:
+                    do_op(sv, op, sel, tgt, compiled, nsmap)
+        except exc:
+            stats['faults_raised'] = stats.get('faults_raised', 0) + 1
+        except Exception:  # noqa: BLE001 - a selector the library rejects, or the fault re-wrapped: C08's business
+            stats['fault_other_exception'] = stats.get('fault_other_exception', 0) + 1
+    return fp
+
+
+def run_fault_history(sv, rng, tops, how, calls, stats):
+    """Faults at a point: a call that is interrupted half way (an asynchronous exception at any line inside the
+    library, an early-closed iterator, a caller's iterable that raises, a pattern with a syntax error in a later
+    alternative) is just another piece of history: every later, ordinary call must answer as on the pristine document
+    and the tree must be what it was."""
+    import bs4
+    out = []
+    soup = trees.materialise(tops, how)
+    els = els_of(soup)
+    if not els:
+        return out
+    index = {id(e): i for i, e in enumerate(els)}
+    index[id(soup)] = 'doc'
+
+    def target(ti, op):
+        tgt = soup if ti is None else els[ti % len(els)]
+        if op in ('match', 'closest') and tgt is soup:
+            tgt = els[0]
+        return tgt
+
+    def ask_all(tag):
+        res = []
+        for (op, sel, ti, compiled, nsmap) in calls:
+            st, r = monitors.guarded_call(do_op, sv, op, sel, target(ti, op), compiled, nsmap)
+            res.append((st, norm(r, index) if st == 'ok' else type(r).__name__))
+        return res
+
+    def compiled_all():
+        res = []
+        for (op, sel, ti, compiled, nsmap) in calls:
+            st, c = monitors.guarded_call(sv.compile, sel, nsmap)
+            res.append((st, c if st == 'ok' else type(c).__name__))
+        return res
+
+    sv.purge()
+    base = ask_all('base')
+    base_c = compiled_all()
+    if any(st == 'budget' for st, _ in base):
+        return out
+    stats['nontrivial'] = stats.get('nontrivial', 0) + sum(1 for st, r in base if st == 'ok' and r not in (None, False, []))
+    for rnd in range(rng.randint(3, 8)):
+        i = rng.randrange(len(calls))
+        op, sel, ti, compiled, nsmap = calls[i]
+        tgt = target(ti, op)
+        kind = rng.choice(['line', 'line', 'line', 'line', 'syntax', 'raising-iterable', 'purge-line'])
+        before = monitors.tree_fingerprint(soup)
+        ser_before = soup.decode()
+        desc = None
+        if kind in ('line', 'purge-line'):
+            if kind == 'purge-line':
+                sv.purge()                    # the interrupted call is also the one that has to compile
+            probe = fault_op(sv, random.Random(0), op, sel, tgt, compiled, nsmap, None, Injected, {})
+            if kind == 'purge-line':
+                sv.purge()
+            if probe.n == 0:
+                continue
+            at = rng.randint(1, probe.n)
+            exc = rng.choice(FAULTS)
+            fp = fault_op(sv, random.Random(0), op, sel, tgt, compiled, nsmap, at, exc, stats)
+            stats['faults_injected'] = stats.get('faults_injected', 0) + (1 if fp.fired else 0)
+            if fp.fired:
+                stats['site:' + fp.fired.rsplit(':', 1)[0]] = stats.get('site:' + fp.fired.rsplit(':', 1)[0], 0) + 1
+            desc = '%s(%r) interrupted by %s at %s (line event %d of %d)' % (op, sel, exc.__name__, fp.fired, at, probe.n)
+        elif kind == 'syntax':
+            bad = sel + rng.choice(BROKEN)
+            st, r = monitors.guarded_call(do_op, sv, op, bad, tgt, compiled, nsmap)
+            stats['syntax_faults'] = stats.get('syntax_faults', 0) + (1 if st == 'raise' else 0)
+            desc = '%s(%r) rejected (%s)' % (op, bad, type(r).__name__ if st == 'raise' else st)
+        else:
+            k = rng.randint(0, 3)
+
+            def gen():
+                for j, e in enumerate(els):
+                    if j >= k:
+                        raise Injected('caller iterable')
+                    yield e
+            try:
+                with monitors.cpu_budget(30.0):
+                    (sv.compile(sel, nsmap).filter if compiled else (lambda it: sv.filter(sel, it, nsmap)))(gen())
+            except Injected:
+                stats['iterable_faults'] = stats.get('iterable_faults', 0) + 1
+            except Exception:  # noqa: BLE001
+                pass
+            desc = 'filter(%r, <iterable raising after %d items>)' % (sel, k)
+        after = monitors.tree_fingerprint(soup)
+        if after != before or soup.decode() != ser_before:
+            out.append({'what': 'tree left changed by an interrupted call: ' + desc, 'monitor': 'fault-mutation',
+                        'class': sig('fault-mutation', op), 'fault': desc})
+            return out
+        now = ask_all('after')
+        stats['fault_compared'] = stats.get('fault_compared', 0) + len(now)
+        for j, (b, n_) in enumerate(zip(base, now)):
+            if b != n_ and 'budget' not in (b[0], n_[0]):
+                out.append({'what': 'after %s, the ordinary call %s(%r) answers %r; before the fault (pristine) it answered %r' % (
+                    desc, calls[j][0], calls[j][1], n_, b), 'monitor': 'fault', 'class': sig('fault', kind, calls[j][0]), 'fault': desc,
+                    'selector': calls[j][1]})
+                return out
+        now_c = compiled_all()
+        for j, (b, n_) in enumerate(zip(base_c, now_c)):
+            same = b[0] == n_[0] and (b[1] == n_[1] if b[0] != 'ok' else (b[1] == n_[1] and hash(b[1]) == hash(n_[1])))
+            if not same and 'budget' not in (b[0], n_[0]):
+                out.append({'what': 'after %s, compile(%r) is not equal to what it was before the fault' % (desc, calls[j][1]),
+                            'monitor': 'fault-compile', 'class': sig('fault-compile', kind), 'fault': desc, 'selector': calls[j][1]})
+                return out
+    return out
+
+
+def run_fault_unit(u):
+    import soupsieve as sv
+    rng = random.Random(u['seed'])
+    res = {'evals': 0, 'sigs': [], 'viol': [], 'samples': [], 'counters': {}}
+    cn = res['counters']
+    sigs = set()
+    for _ in range(u['n']):
+        tops, how = gen_doc(rng)
+        steps = [st for st in (gen_themed_steps(rng) if rng.random() < .3 else gen_steps(rng, 0, ns=how in ('xml', 'api-xml'), edits=False))
+                 if st[0] != 'edit'][:10]
+        calls = [(st[0], st[1], st[2], st[3], st[4] if len(st) > 4 else None) for st in steps]
+        # canaries: whole-document questions that are sensitive to anything a call could leave behind in shared state
+        # (iframe crossing, the caller's prefix map, the per-document memo tables, the text pseudo-classes)
+        calls += [('select', c, None, rng.random() < .5, None) for c in CANARIES]
+        if how in ('xml', 'api-xml'):
+            calls += [('select', c, None, rng.random() < .5, dict(NSMAP)) for c in NS_MEMO]
+        if not calls:
+            continue
+        stats = {}
+        state = rng.getstate()
+        viol = run_fault_history(sv, rng, tops, how, calls, stats)
+        for k, v in stats.items():
+            cn[k] = cn.get(k, 0) + v
+        cn['fault_histories'] = cn.get('fault_histories', 0) + 1
+        res['evals'] += stats.get('fault_compared', 0)
+        for c in calls[:4]:
+            sigs.add(sig('fault', c[0], c[1], how))
+        if viol:
+            cn['VIOL'] = cn.get('VIOL', 0) + 1
+            if len(res['viol']) < 4:
+                v = viol[0]
+                v.update({'tree': [t.to_json() for t in tops], 'how': how, 'fault_calls': [list(c) for c in calls],
+                          'rng_state': repr(state), 'unit_seed': u['seed'],
+                          'markup': trees.describe(trees.materialise(tops, how), 500)})
+                res['viol'].append(v)
+    res['sigs'] = list(sigs)
+    return res
+
+
 def run_unit(u):
     if u.get('kind') == 'suite':
         return suite_replay()
+    if u.get('kind') == 'fault':
+        return run_fault_unit(u)
     import soupsieve as sv
     rng = random.Random(u['seed'])
     res = {'evals': 0, 'sigs': [], 'viol': [], 'samples': [], 'counters': {}}
